@@ -209,8 +209,13 @@ def strip_cfg_features(body, log_rules):
     for feat in FEATURES_ON:
         on = '#[cfg(feature = "%s")]' % feat
         off = '#[cfg(not(feature = "%s"))]' % feat
-        if on in body:
-            body = body.replace(on, "")
+        while on in body:
+            k = body.find(on)
+            j = k + len(on)
+            while j < len(body) and body[j].isspace():
+                j += 1
+            # a bare block right after a loop body confuses Verus' loop syntax: separate it with a unit statement
+            body = body[:k] + ("();" if j < len(body) and body[j] == "{" else "") + body[k + len(on):]
             log_rules.add("R-cfgfeat `#[cfg(feature = \"%s\")]` item kept (default features)" % feat)
         while off in body:
             mask = L.code_mask(body)
@@ -602,12 +607,14 @@ def run_unit(vu, scratch_dir, prop):
     gen_dir = os.path.join(EVIDENCE, "generated")
     os.makedirs(gen_dir, exist_ok=True)
     write(os.path.join(gen_dir, "%s.rs" % vu.uid.lower()), text)
-    js, out, err, wall = run_verus_file(path)
+    m_rl = re.search(r"^//@rlimit (\d+)", vu.text, re.M)
+    unit_rlimit = int(m_rl.group(1)) if m_rl else None
+    js, out, err, wall = run_verus_file(path, rlimit=unit_rlimit)
     if err == "timeout":
         return [mk(r[2], r[3], r[4], "undecided", reason="verus timeout") for r in ranges]
     verr, hard = parse_errors(err, path)
     if any(k == "rlimit" for k, _, _, _ in verr):
-        js, out, err, wall2 = run_verus_file(path, rlimit=60)
+        js, out, err, wall2 = run_verus_file(path, rlimit=max(60, 3 * (unit_rlimit or 0)))
         wall += wall2
         verr, hard = parse_errors(err, path)
     vr = (js or {}).get("verification-results", {})
@@ -669,7 +676,7 @@ def run_unit(vu, scratch_dir, prop):
         if rtext is not None:
             rpath = os.path.join(scratch_dir, "%s_reach.rs" % vu.uid.lower())
             write(rpath, rtext)
-            rjs, rout, rerr, rwall = run_verus_file(rpath)
+            rjs, rout, rerr, rwall = run_verus_file(rpath, rlimit=unit_rlimit)
             rverr, rhard = parse_errors(rerr if rerr != "timeout" else "", rpath)
             rlines = rtext.split("\n")
             hit = set()
